@@ -1,18 +1,27 @@
 /-
-  C11 for `solve_slalom` (Suraromu / Slalom), default path `reference_sol_loop=None`.
+  C11 for `solve_slalom` (Suraromu / Slalom), default path `reference_sol_loop=None` - the posted program encodes the
+  published rules (Spec/PuzzleRules/Slalom.lean) for every board size (1 × N included: no loop fits, no solution) and
+  every well-formed layout of black cells, gates (horizontal / vertical, any length, touching the border or closed by
+  black cells, numbered or not) and circle.
+  Together with `Cspuz.C11.C11_compose` this yields the property for this puzzle.
 
-  `statement` is the full property: for every well-formed instance the posted program encodes the published rules
-  (Spec/PuzzleRules/Slalom.lean).  What is PROVED so far is `statement_partial`: on every well-formed instance (all board
-  sizes, 1 × N included; any number of gates, numbered or not) `solve_slalom` raises nothing, its answer keys are
-  exactly the segment variables of the first frame (distinct, declared), and every posted constraint is a
-  well-typed Boolean tree - via the closed form of the program (`Cspuz.Proofs.C11SlalomP.program_eq`: two frames, the
-  cycle fragment with its auxiliary variables after BOTH frames, `gate_ord`, `passed`, the gate / origin / in- and
-  out-degree / counter / number / auxiliary constraints in emission order).
-  MISSING: `EncodesRules P (Rules pb)` (both directions: orientation consistency of the direction bits along the cycle,
-  the running gate counter, and the right-angle crossing from "one cell per gate" + closed ends).  The tie for that
-  part is the program correspondence + the rule differential of harness/puzzles/slalom.py.
+  What the proof has to bridge: the module never states "the loop crosses a gate at a right angle" and never walks
+  along the loop.  It posts one hidden direction bit per step with in-degree = out-degree = `passed` for every cell, a
+  counter `gate_ord` that stays constant along a directed step into an ordinary cell and grows by one along a directed
+  step into a gate cell (the circle being exempt), "exactly one passed cell per gate", and `gate_ord = n` on the passed
+  cell of the gate numbered `n`.
+  SOUNDNESS (`Cspuz.Proofs.C11SlalomA.sound`): the loop is a cyclic sequence of pairwise different cells
+  (`loop_cycle`); the degree constraints make the direction bits consistent all the way round (`fwd_succ`), so the cells
+  can be listed from the circle in the direction of the bits; the counter then equals its value at the circle plus the
+  number of gate cells met (`ord_cnt`); every gate contributes a gate cell of its own (`gates_le_cnt`), and the declared
+  range `0 … number of gates` forces the counter to start at 0 (`ord_origin`); a gate closed at both ends by a black cell
+  or the border can only be left at a right angle when exactly one of its cells is passed (`perp`).
+  COMPLETENESS (`Cspuz.Proofs.C11SlalomB.local_of_rules`): from a round trip obeying the rules, direct every step along
+  the round trip, let `passed` = "on the round trip" and `gate_ord` = number of gate cells met so far; a loop has at
+  least three cells (`len_ge3`), so the directed steps are exactly the steps of the round trip (`goes_iff`).
 -/
-import CspuzModel.Proofs.C11SlalomW
+import CspuzModel.Proofs.C11Slalom
+import CspuzModel.Proofs.C11SlalomEx
 namespace Cspuz.C11.Slalom
 open Cspuz Cspuz.Spec Cspuz.Puzzles.Slalom Cspuz.Spec.Slalom
 
@@ -27,23 +36,15 @@ def statement : Prop :=
   ∀ pb : Problem, WellFormed pb → ∀ P, program pb = .ok P →
     EncodesRules P (Rules pb) ∧ P.KeysOk ∧ (∀ c ∈ P.cs, wtB c = true)
 
-/-- The proved part: keys and well-typedness. -/
-def statement_partial : Prop :=
-  ∀ pb : Problem, WellFormed pb → ∀ P, program pb = .ok P →
-    P.KeysOk ∧ (∀ c ∈ P.cs, wtB c = true)
-
-theorem program_shape : statement_partial := Cspuz.Proofs.C11SlalomW.shape
+theorem program_iff_rules : statement := Cspuz.Proofs.C11Slalom.main
 
 /-- `solve_slalom` raises nothing on a well-formed instance. -/
 theorem total : ∀ pb : Problem, WellFormed pb → ∃ P, program pb = .ok P := Cspuz.Proofs.C11SlalomP.total
 
-/-! ### non-vacuity: a 3 × 3 board, black centre, two gates of length 1 between the centre and the border (one numbered),
-circle in the top-left corner -/
+/-! ### non-vacuity: a 3 × 3 board, black centre, two gates of length 1 between the centre and the border (the left one
+numbered 2), circle in the top-left corner -/
 
-def exPb : Problem :=
-  { height := 3, width := 3, origin := (0, 0),
-    isBlack := [[false, false, false], [false, true, false], [false, false, false]],
-    gates := [{ y := 1, x := 0, d := .hor, l := 1, n := 2 }, { y := 1, x := 2, d := .hor, l := 1, n := -1 }] }
+open Cspuz.Proofs.C11SlalomEx (exPb ringOn exPb_rules)
 
 theorem exPb_wf : WellFormed exPb := by
   refine ⟨by decide, by decide, rfl, ?_, by decide, rfl, rfl, ?_, by decide⟩
@@ -62,5 +63,18 @@ theorem exPb_wf : WellFormed exPb := by
 
 example : ∃ P, program exPb = .ok P ∧ P.keys = List.range 12 ∧ P.decls.length = 2 * 12 + 3 * 9 + 9 + 9 :=
   ⟨_, Cspuz.Proofs.C11SlalomP.program_eq exPb exPb_wf, rfl, rfl⟩
+
+/-! ### non-vacuity of the rules: the ring around the black centre, run through clockwise from the circle, crosses the
+right gate first and the left gate (numbered 2) second; hence the posted program has a model with exactly these key
+values -/
+
+open Cspuz.Spec.Loop in
+example : Rules exPb (segAnswer 2 2 ringOn) := exPb_rules
+
+open Cspuz.Spec.Loop in
+example : ∃ P σ, program exPb = .ok P ∧ Sat P.decls P.cs σ ∧ P.keyVals σ = (segAnswer 2 2 ringOn).map some := by
+  obtain ⟨P, hP⟩ := total exPb exPb_wf
+  obtain ⟨σ, hσ, hk⟩ := ((program_iff_rules exPb exPb_wf P hP).1 _).mpr exPb_rules
+  exact ⟨P, σ, hP, hσ, hk⟩
 
 end Cspuz.C11.Slalom
